@@ -1,15 +1,31 @@
 package main
 
-import "strings"
+import (
+	"strings"
+	"sync"
+	"time"
+)
 
 // C08: every exported command method with hostile strings in every argument position;
 // observation = the exact bytes the server end received for that one call.
 var c08ws *WireSession
 
+// a second client in the same process, used by the "pressure" cases (SplitLen 6000): while the
+// first client's long line is being taken slowly by its server, the second one keeps writing
+// long lines of its own.  Nothing of one client's traffic may show up on the other's wire.
+var c08ws2 *WireSession
+
+const c08Pressure = 6000
+
 func init() {
 	props["C08"] = &Prop{
 		Setup:    func() { c08ws = NewWireSession(nil) },
-		Teardown: func() { c08ws.Close() },
+		Teardown: func() {
+			c08ws.Close()
+			if c08ws2 != nil {
+				c08ws2.Close()
+			}
+		},
 		Gen:      c08Gen,
 		Exec:     c08Exec,
 		Class: func(in Fields) string {
@@ -111,7 +127,16 @@ func c08Gen(r *Rand, tier string, scale int, emit func(Fields)) {
 		if r.Chance(20) {
 			qm = c08Atom(r)
 		}
-		emit(F(m, lens[r.Intn(len(lens))], qm, args))
+		sl := lens[r.Intn(len(lens))]
+		if r.Chance(3) && n > 0 {
+			// pressure case: one very long argument (lines beyond bufio's 4096-byte buffer)
+			sl = c08Pressure
+			args[hostile] = strings.Repeat(r.Pick([]string{"x", "ab ", "word. "}), 1+r.Range(4200, 5200)/3) + c08Atom(r)
+			if (m == "Ctcp" || m == "CtcpReply") && hostile == 1 {
+				args[1] = asciiVerb(r)
+			}
+		}
+		emit(F(m, sl, qm, args))
 	}
 }
 
@@ -123,6 +148,37 @@ func c08Exec(in Fields) Fields {
 	var args []string
 	for _, a := range in[3:] {
 		args = append(args, string(a))
+	}
+	if in.I(1) == c08Pressure {
+		if c08ws2 == nil {
+			c08ws2 = NewWireSession(nil)
+		}
+		var pmu sync.Mutex
+		c08ws.Pace = func() int { // the first client's server takes 64 bytes at a time, slowly
+			pmu.Lock()
+			defer pmu.Unlock()
+			time.Sleep(40 * time.Microsecond)
+			return 64
+		}
+		stop, stopped := make(chan struct{}), make(chan struct{})
+		other := "OTHER " + strings.Repeat("o", 4000)
+		go func() {
+			defer close(stopped)
+			for {
+				select {
+				case <-stop:
+					return
+				default:
+					c08ws2.Conn.Raw(other)
+				}
+			}
+		}()
+		defer func() {
+			close(stop)
+			<-stopped
+			c08ws.Pace = nil
+			c08ws2.Call(func() {}) // cut the second session's buffer
+		}()
 	}
 	w := c08ws.Call(func() { callMethod(c08ws.Conn, m, args) })
 	return F(w)
